@@ -101,6 +101,21 @@ DupFaults(s) ==
                                                                        /\ s[e].locals[l].lk \in {"inst", "block"}} }
   IN ents \cup locs
 
+\* two locals of one function given the same name: the later one is renamed after the earlier one
+\* and so are the references to it (the only fault left is the double definition)
+RenameIn(ls, from, to) ==
+  [l \in 1..Len(ls) |-> [ls[l] EXCEPT !.n = IF @ = from THEN to ELSE @,
+                                      !.refs = [r \in 1..Len(ls[l].refs) |->
+                                                  [ls[l].refs[r] EXCEPT !.to = IF RefClass(ls[l].refs[r].rk) = "local" /\ @ = from THEN to ELSE @,
+                                                                        !.aux = IF RefClass(ls[l].refs[r].rk) = "local" /\ @ = from THEN to ELSE @]]]]
+ClashFaults(s) ==
+  { [s EXCEPT ![e] = [@ EXCEPT !.locals = RenameIn(@, s[e].locals[l2].n, s[e].locals[l1].n)]] :
+      <<e, l1, l2>> \in {<<e, l1, l2>> \in (1..Len(s)) \X (1..8) \X (1..8) :
+                            /\ l1 < l2 /\ l2 <= Len(s[e].locals)
+                            /\ s[e].locals[l1].n # "" /\ s[e].locals[l2].n # "" /\ s[e].locals[l1].n # s[e].locals[l2].n
+                            /\ s[e].locals[l1].lk \in {"param", "inst", "invoke", "lpad"}
+                            /\ s[e].locals[l2].lk \in {"inst", "invoke", "lpad"}} }
+
 \* permutations of the top-level entities that keep the relative order of unnamed globals and of
 \* entities with the same key (attribute groups / named metadata merged in textual order);
 \* use-list order directives stay last (LLVM wants their targets defined)
@@ -120,11 +135,11 @@ Perms(s) == { [x \in 1..Len(s) |-> s[p[x]]] : p \in {q \in CandPerms(Len(s)) : P
 PatternSet == {Patterns[k] : k \in 1..Len(Patterns)}
 AllSources ==
   CASE SourceSet = "patterns" -> PatternSet
-    [] SourceSet = "faults"   -> UNION {RefFaults(s) \cup DupFaults(s) : s \in PatternSet}
+    [] SourceSet = "faults"   -> UNION {RefFaults(s) \cup DupFaults(s) \cup ClashFaults(s) : s \in PatternSet}
     [] SourceSet = "perms"    -> UNION {Perms(s) : s \in PatternSet}
     [] SourceSet = "alias"    -> {AliasPatterns[k] : k \in 1..Len(AliasPatterns)}
                                   \cup UNION {RefFaults(AliasPatterns[k]) : k \in 1..Len(AliasPatterns)}
-    [] SourceSet = "all"      -> PatternSet \cup UNION {RefFaults(s) \cup DupFaults(s) : s \in PatternSet}
+    [] SourceSet = "all"      -> PatternSet \cup UNION {RefFaults(s) \cup DupFaults(s) \cup ClashFaults(s) : s \in PatternSet}
                                   \cup {AliasPatterns[k] : k \in 1..Len(AliasPatterns)}
 
 ----------------------------------------------------------------------------
